@@ -153,6 +153,18 @@ class Replayer(object):
                              "fractional" if D.denominator != 1 else "equation")
                         self.viol("comb-%s-%s" % (case["form"], cls),
                                   dict(i2, expected_err=st["err"], err=err, expected=vshow(want), observed=[repr(o) for o in out]))
+                    if terminal and err == "none" and got == want and a["k"] == "s" and das == "int" and alias == names[0]:
+                        # copy(): a tee copy of Stream coefficients - the copy and the original can both be run
+                        try:
+                            f2 = self.comb_build(case, alias, das, r)
+                            g2 = f2.copy()
+                            kw2 = dict(kw)
+                            o_copy = vecs(list(g2(xs(nfeed), **kw2)), self.ns)
+                            o_orig = vecs(list(f2(xs(nfeed), **kw2)), self.ns)
+                            if o_copy != want or o_orig != want or type(g2) is not type(f2):
+                                self.viol("copy-stream-coefficients", dict(i2, expected=vshow(want), copy=vshow(o_copy), original=vshow(o_orig)))
+                        except Exception as ex:
+                            self.viol("copy-stream-coefficients", dict(i2, raised="%s: %s" % (type(ex).__name__, str(ex)[:160])))
                     if terminal and err == "none":
                         # the operational layer's coefficient lists (more specific than the equations): diagnostic
                         try:
@@ -216,6 +228,10 @@ class Replayer(object):
                                              why="input items delivered after %d outputs" % n))
             if rest:
                 self.viol("call-length", dict(i2, extra=[repr(o) for o in rest]))
+            if not box["items"] and box["cls"] == "P" and n == maxlen and case["zero"] == "sym":
+                pos = list(W.container("P", [])(xs(2), None, zero))
+                if any(lin_vec(v, self.ns) != lin_vec(zero, self.ns) for v in pos):
+                    self.note("an empty ParallelFilter ignores a zero value given positionally (yields 0.0)", i2)
             if not box["items"] and box["cls"] == "C" and not isinstance(r, al.Stream):
                 self.note("an empty CascadeFilter returns its argument itself (not a Stream)", i2)
         if idx % 311 == 0 and n == maxlen:
@@ -714,7 +730,8 @@ def check(ctx):
         "reported as diagnostics only",
         "ZFilter values: exact rational coefficients (Fractions, and ints / dyadic floats); LinearFilter(f, den) with den a "
         "number or a ZFilter; == only on LTI filters",
-        "linearize: constant coefficients, denominators whose lowest power is 0",
+        "linearize() on literal polynomials: constant coefficients, denominators that contain the power 0 and do not cancel "
+        "entirely; Stream coefficients are linearized through the comb cases",
         "designed filters: generic parameter values strictly inside (0, pi) other than pi/2 (no coefficient vanishes); "
         "only orders, presence of coefficients, Stream-ness, read accounting, names - no numeric design contract (C13)",
     ]
